@@ -35,7 +35,7 @@ def fmt_list(X):
 
 
 class NState:
-    __slots__ = ("link", "index", "own", "key", "val", "src", "kind", "hist", "handed")
+    __slots__ = ("link", "index", "own", "key", "val", "src", "kind", "hist", "handed", "origin")
 
     def __init__(self, link="?", index="?", own="?", src="", kind="entry"):
         self.link, self.index, self.own = link, index, own
@@ -44,10 +44,11 @@ class NState:
         self.kind = kind
         self.hist = []
         self.handed = False
+        self.origin = link[1] if isinstance(link, tuple) else None
 
     def copy(self):
         n = NState(self.link, self.index, self.own, self.src, self.kind)
-        n.key, n.val, n.handed = self.key, self.val, self.handed
+        n.key, n.val, n.handed, n.origin = self.key, self.val, self.handed, self.origin
         return n
 
     def short(self):
@@ -478,7 +479,7 @@ class NT:
                 st.hist.append("map.insert into %s" % fmt_list(X))
                 self.lenver[X] = self.lenver.get(X, 0) + 1
                 self.nonempty[X] = True
-                self.events_on.append((i, "index", X, n, had_room))
+                self.events_on.append((i, "index", X, n, had_room, e.get("slack")))
                 self.room.pop(X, None)
             return
         if (e.get("q") or "").endswith("OnEvictCallback::on_evict"):
